@@ -1,8 +1,240 @@
 import PyPhysim.Model.Proto
-open PyPhysim.Proto
+import PyPhysim.Model.C06
+import PyPhysim.Model.C06Heap
+open PyPhysim.Proto PyPhysim.C06M
 
--- stub: replaced when the C06 model is written
+/-!
+Line protocol of the C06 model driver.
+
+`prog <op> <op> …` runs a script on the object-level model (`Mach`) and prints
+the exceptions raised, the observer outputs and the whole heap:
+
+```
+nr,<name>,<ty>,<acc>,<cn|->      r<k> = Result(name, ty, acc, choice_num)
+u,<ref>,<v>,<t|->                ref.update(v, t)
+m,<ref>,<ref>                    a.merge(b)
+ns                               s<k> = SimulationResults()
+sp,<s>,<fixed|->,<unp|->         set_parameters   (k=v&k=v , k=v:v:v&k=v:v)
+ad,<s>,<ref>  ap,<s>,<ref>       add_result / append_result
+aa,<s>,<o>  ma,<s>,<o>           append_all_results / merge_all_results
+mao,<s>,<o>                      merge_all_results of the source before the repair (model only)
+cb,<s1>,<s2>                     s<k> = combine_simulation_results(s1, s2)
+g,<ref> mn,<ref> vr,<ref>        get_result / get_result_mean / get_result_var
+eq,<ref>,<ref>                   a == b
+```
+`ref` = `r<k>` or `s<k>.<name>.<index|L>`.
+-/
+
+structure St where
+  m : Mach
+  rv : List Nat            -- addresses of the r-variables
+  errs : List String
+  outs : List String
+
+def tyOf? : String → Option Ty
+  | "0" => some .sum | "1" => some .ratio | "2" => some .misc | "3" => some .choice | _ => none
+
+def tyCode : Ty → String
+  | .sum => "0" | .ratio => "1" | .misc => "2" | .choice => "3"
+
+def optRat? (s : String) : Option (Option Rat) :=
+  if s = "-" then some none else (parseRat? s).map some
+
+def resolve (st : St) (ref : String) : Option Nat :=
+  if ref.startsWith "r" then
+    match (ref.drop 1).toString.toNat? with
+    | some k => st.rv[k]?
+    | none => none
+  else if ref.startsWith "s" then
+    match (ref.drop 1).toString.splitOn "." with
+    | [s, nm, k] =>
+      match s.toNat? with
+      | none => none
+      | some s =>
+        match dictGet? (dictOf st.m s) nm with
+        | none => none
+        | some l =>
+          let xs := listAt st.m l
+          if k = "L" then xs.getLast? else
+          match k.toNat? with
+          | some k => xs[k]?
+          | none => none
+    | _ => none
+  else none
+
+def parseKV? (s : String) : Option (String × String) :=
+  match s.splitOn "=" with
+  | [k, v] => some (k, v)
+  | _ => none
+
+def parseFixed? (s : String) : Option (List (String × Int)) :=
+  if s = "-" then some [] else
+  (s.splitOn "&").mapM (fun e => do
+    let (k, v) ← parseKV? e
+    let i ← v.toInt?
+    pure (k, i))
+
+def parseUnp? (s : String) : Option (List (String × List Int)) :=
+  if s = "-" then some [] else
+  (s.splitOn "&").mapM (fun e => do
+    let (k, v) ← parseKV? e
+    let l ← parseIntList? v ":"
+    pure (k, l))
+
+def showRes (r : Res) : String :=
+  ",".intercalate [r.name, tyCode r.ty, showRat r.value, showList toString r.counts ":",
+    showRat r.total, showRat r.rsum, showRat r.rsq, toString r.n, (if r.acc then "1" else "0"),
+    showList showRat r.vlist ":", showList showRat r.tlist ":"]
+
+def showGet : Except PyErr GetOut → String
+  | .ok .nothing => "nothing"
+  | .ok (.num q) => "num:" ++ showRat q
+  | .ok (.arr l) => "arr:" ++ showList showRat l ":"
+  | .error e => "error:" ++ toString e
+
+def showER : Except PyErr Rat → String
+  | .ok q => showRat q
+  | .error e => "error:" ++ toString e
+
+def showParams (p : Params) : String :=
+  showList (fun e => e.1 ++ "=" ++ toString e.2) p.fixed "&" ++ "~" ++
+  showList (fun e => e.1 ++ "=" ++ showList toString e.2 ":") p.unp "&"
+
+def showSim (s : Sim) : String :=
+  showList (fun e => e.1 ++ ">" ++ toString e.2) s.dict "," ++ "@" ++ showParams s.params
+
+def dump (st : St) : String :=
+  "E=" ++ ";".intercalate st.errs.reverse ++ "|O=" ++ ";".intercalate st.outs.reverse ++
+  "|R=" ++ showList showRes st.m.res "#" ++
+  "|L=" ++ showList (fun l => "l" ++ showList toString l ":") st.m.lists "#" ++
+  "|S=" ++ showList showSim st.m.sims "#" ++
+  "|V=" ++ showList toString st.rv ","
+
+def record (st : St) (i : Nat) (p : Mach × Option PyErr) : St :=
+  match p.2 with
+  | none => { st with m := p.1 }
+  | some e => { st with m := p.1, errs := (toString i ++ ":" ++ toString e) :: st.errs }
+
+def out (st : St) (i : Nat) (s : String) : St := { st with outs := (toString i ++ ":" ++ s) :: st.outs }
+
+/-- one op; `none` = malformed op -/
+def stepOp (st : St) (i : Nat) (op : String) : Option St :=
+  match op.splitOn "," with
+  | ["nr", nm, ty, acc, cn] => do
+      let ty ← tyOf? ty
+      let cn ← (if cn = "-" then some none else cn.toNat?.map some)
+      match mkRes nm ty (acc = "1") cn with
+      | .ok r => let (m, a) := allocRes st.m r; pure { st with m := m, rv := st.rv ++ [a] }
+      | .error e => pure { st with errs := (toString i ++ ":" ++ toString e) :: st.errs }
+  | ["u", ref, v, t] => do
+      let a ← resolve st ref
+      let v ← parseRat? v
+      let t ← optRat? t
+      pure (record st i (updR st.m a ⟨v, t⟩))
+  | ["m", ra, rb] => do
+      let a ← resolve st ra
+      let b ← resolve st rb
+      pure (record st i (mergeR st.m a b))
+  | ["ns"] => pure { st with m := { st.m with sims := st.m.sims ++ [{ dict := [], params := ⟨[], []⟩ }] } }
+  | ["sp", s, fx, un] => do
+      let s ← s.toNat?
+      let fx ← parseFixed? fx
+      let un ← parseUnp? un
+      if s < st.m.sims.length then
+        pure { st with m := { st.m with sims := st.m.sims.modify s (fun x => { x with params := ⟨fx, un⟩ }) } }
+      else none
+  | ["ad", s, ref] => do
+      let s ← s.toNat?
+      let a ← resolve st ref
+      pure (record st i (addResult st.m s a))
+  | ["ap", s, ref] => do
+      let s ← s.toNat?
+      let a ← resolve st ref
+      pure (record st i (appendResult st.m s a))
+  | ["aa", s, o] => do
+      let s ← s.toNat?
+      let o ← o.toNat?
+      pure (record st i (appendAll st.m s o))
+  | ["ma", s, o] => do
+      let s ← s.toNat?
+      let o ← o.toNat?
+      pure (record st i (mergeAll st.m s o))
+  | ["mao", s, o] => do
+      let s ← s.toNat?
+      let o ← o.toNat?
+      pure (record st i (mergeAllOld st.m s o))
+  | ["cb", s1, s2] => do
+      let s1 ← s1.toNat?
+      let s2 ← s2.toNat?
+      pure (record st i (combine st.m s1 s2))
+  | ["g", ref] => do
+      let a ← resolve st ref
+      let r ← st.m.res[a]?
+      pure (out st i (showGet (getResult r)))
+  | ["mn", ref] => do
+      let a ← resolve st ref
+      let r ← st.m.res[a]?
+      pure (out st i (showER (getMean r)))
+  | ["vr", ref] => do
+      let a ← resolve st ref
+      let r ← st.m.res[a]?
+      pure (out st i (showER (getVar r)))
+  | ["eq", ra, rb] => do
+      let a ← resolve st ra
+      let b ← resolve st rb
+      let x ← st.m.res[a]?
+      let y ← st.m.res[b]?
+      pure (out st i (match eqPy x y with
+        | .ok true => "True" | .ok false => "False" | .error e => "error:" ++ toString e))
+  | _ => none
+
+def runProg : St → Nat → List String → Option St
+  | st, _, [] => some st
+  | st, i, op :: rest => match stepOp st i op with
+    | none => none
+    | some st' => runProg st' (i + 1) rest
+
+/-- `tree <ty> <acc> <cn> <shape> <obs;obs;…>`: evaluate a merge tree with `evalTree`
+    shape: prefix notation, `L<k>` = leaf taking the next k observations, `N` = node -/
+partial def parseTree (toks : List String) (obs : List Obs) : Option (MTree (List Obs) × List String × List Obs) :=
+  match toks with
+  | [] => none
+  | t :: rest =>
+    if t = "N" then do
+      let (l, rest1, obs1) ← parseTree rest obs
+      let (r, rest2, obs2) ← parseTree rest1 obs1
+      pure (.node l r, rest2, obs2)
+    else if t.startsWith "L" then do
+      let k ← (t.drop 1).toString.toNat?
+      pure (.leaf (obs.take k), rest, obs.drop k)
+    else none
+
+def parseObs? (s : String) : Option Obs :=
+  match s.splitOn "," with
+  | [v, t] => do
+      let v ← parseRat? v
+      let t ← optRat? t
+      pure ⟨v, t⟩
+  | _ => none
+
+def showExRes : Except PyErr Res → String
+  | .ok r => showRes r
+  | .error e => "error:" ++ toString e
+
 def handle : List String → String
+  | "prog" :: ops =>
+    match runProg ⟨⟨[], [], []⟩, [], [], []⟩ 0 ops with
+    | some st => dump st
+    | none => "bad-op"
+  | ["tree", ty, acc, cn, shape, obs] =>
+    match tyOf? ty, cn.toNat?, (fields obs ";").mapM parseObs? with
+    | some ty, some cn, some obs =>
+      match parseTree (fields shape ".") obs with
+      | some (t, [], []) =>
+        showExRes (evalTree (fresh "x" ty (acc = "1") cn) t) ++ "|" ++
+        showExRes (foldUpdM (fresh "x" ty (acc = "1") cn) t.flatten)
+      | _ => "bad-op"
+    | _, _, _ => "bad-op"
   | _ => "bad-op"
 
 def main : IO Unit := runDriver handle
